@@ -10,6 +10,8 @@ W13 = {"gd": 3, "pgd": 3, "bcd": 3, "linear": 3, "gd_qg": 3, "ppa": 1, "operator
 
 def held_handles(b):
     hs = list(b.points) + list(b.info.get("metrics") or []) + list(b.conlist) + list(b.psds)
+    # points without any leaf: the zero gradient returned with a stationary point
+    hs += [o["out"][1] for o in b.ops if o["op"] == "stationary"]
     return [h for h in hs if h]
 
 
@@ -152,6 +154,9 @@ class C13(Prop):
             if rng.random() < 0.8:
                 for h in rng.sample(held, min(len(held), rng.choice([2, 4, 6]))):
                     evals.append({"op": "eval", "h": h})
+                zero = [o["out"][1] for o in b.ops if o["op"] == "stationary"]
+                if zero and rng.random() < 0.6:
+                    evals.append({"op": "eval", "h": rng.choice(zero)})     # a point without any leaf
                 # objects created between solves
                 if b.points and rng.random() < 0.5:
                     nedit += 1
